@@ -293,3 +293,14 @@ func vc_C03_lipschitz_extrude() {
 		vfLip3(s, "Revolve3D", nil, []*vfLeaf2{a}, nil)
 	}
 }
+
+// C03 also covers the 2-D union (pruned evaluation must not overestimate the
+// distance) and the polygon primitive (exact sign on split lines): the
+// harnesses of C16 and C04 are registered under this property as well.
+func vc_C03_union2d_no_overestimate() { vfUnionPrune(2+vfCase("n", 2), 0) }
+
+func vc_C03_polygon_sign_splitlines() {
+	k := len(vfPolys) + vfCase("poly", 4)
+	grid := 6
+	vfPolySign(k, grid, vfCase("cell", grid*grid))
+}
